@@ -10,6 +10,23 @@ WORDS = ['a', 'b', 'cd', 'foo', 'bar', 'é', '1', 'x y', 'Zz', 'u', '/u', 'http:
 ENT = ['&amp;', '&lt;', '&#38;', '&#x26;', '&copy;', '&', '&a', '&#', '&#12', '&1;', '&nbsp;', '&quot;']
 TAGS = ['<b>', '</b>', '<b>x</b>', '<span class="c">y</span>', '<br>', '<br/>', '<i a="*e*">', '<!-- c -->', '<x-y>', '<a href="u">', '</a>', '<kbd>`k`</kbd>']
 AUTO = ['<http://a.b/c>', '<https://x.y/?a=1&b=2>', '<a@b.c>', '<mailto:a@b.c>', '<ftp://f.g>', '<http://a.b/*c*>', '<a_b@c.d>']
+URLBITS = ['a', 'b.c', 'my', 'file', 'x-y', '/', '/', '.', '_', '\\_', '\\*', '\\.', '\\-', '\\(', '\\\\', '\\`', '`c`', '`a_b`', '``d``', '*e*', '_f_', '**g**', '*', '_', '__', '&amp;', '&', '&#38;', '&lt;',
+           '?a=1&b=2', '?q=&amp;r', '#frag', '%20', '(x)', '[y]', '[l](u)', '~', '+', '=', ':', '@', '!', "'", '"', '{: #i }', '--', '...', 'ABBR', '[^1]', '|']
+
+
+def auto(rng):
+    """an angle-bracket autolink or automail whose URL/address carries escapes, code spans, emphasis markers, entities"""
+    body = ''.join(rng.choice(URLBITS) for _ in range(rng.randint(1, 6)))
+    k = rng.randrange(8)
+    if k <= 3:
+        return '<' + rng.choice(['http://', 'https://', 'ftp://', 'HTTP://', 'http://a.b/', 'https://example.com/']) + body + '>'
+    if k <= 5:
+        return '<' + rng.choice(['', '', 'mailto:']) + rng.choice(['a', 'a.b', 'my\\_name', 'x_y', 'a`c`', '*e*', 'a&amp;b', 'a+b']) + '@' + rng.choice(['b.c', 'ex\\-ample.com', 'x_y.z', 'b.`c`', '*b*.c']) + '>'
+    if k == 6:
+        return '<' + rng.choice(['http://', 'a@']) + body           # unclosed
+    return rng.choice(AUTO)
+
+
 ESCCH = list('\\`*_{}[]()>#+-.!') + ['|', '"', "'", '<', '&', 'a', ' ']
 ATTRL = ['{: #i }', '{: .c }', '{#j}', '{.k}', '{: k=v }', '{: k="v w" }', "{: k='v' }", '{: #i .c k=v }', '{: }', '{:}', '{ #i }', '{: title="t" }', '{: a=*e* }', '{: `c` }',
          '{: \\} }', '{: k="}" }', '{: k=[l](u) }', '{: id=x y }', '{: . # = }', '{: =v }', '{: k= }', '{: "q" }']
@@ -50,9 +67,9 @@ def inline(rng, depth=0, html=True, ext=True, nobr=False):
         return bang + ('[%s][%s]' % (text, label) if k == 0 else '[%s] [%s]' % (text, label) if k == 1 else '[%s][]' % label if k == 2 else '[%s]' % label)
     if r < 0.78:
         return rng.choice(ENT)
-    if r < 0.83:
-        return rng.choice(AUTO) if html else w(rng)
-    if r < 0.88:
+    if r < 0.85:
+        return auto(rng) if html else w(rng)
+    if r < 0.89:
         return rng.choice(TAGS) if html else w(rng)
     if r < 0.91 and not nobr:
         return w(rng) + '  \n' + w(rng)
@@ -122,6 +139,8 @@ def block(rng, depth=0, html=True, ext=True):
     if k == 4:
         return '!!! ' + rng.choice(['note', 'warning cls', 'note "%s"' % one().replace('"', ''), 'danger ""']) + '\n    ' + blocks(rng, depth + 1, html, ext, 1).replace('\n', '\n    ')
     if k == 5:
+        if rng.random() < 0.08:    # a term that also occurs INSIDE placeholders (code point of an escaped character, stash index, `amp`): F-C10-6
+            return '*[%s]: t' % rng.choice(['42', '0', '1', '95', 'amp', '92'])
         return rng.choice(['*[ABBR]: Abbreviation', '*[HTML]: Hyper *Text* "ML" &amp;', '*[a]: t', '*[foo]: `c` <b>']) if html else '*[ABBR]: Abbreviation "q" &amp;'
     if k == 6:
         return rng.choice(['[TOC]', '[TOC]', '[TOC] x'])
@@ -163,7 +182,7 @@ def document(rng, html=True, ext=True):
 
 
 # ---------------------------------------------------------------- soups
-TOK = ['*', '**', '_', '`', '``', '\\', '\\\\', '\\`', '`\\', '\\*', '\\[', '\\]', '\\(', '\\)', '!', '[', ']', '(', ')', '[a]', '[r1]', '[x][r1]', '![i][r1]', '](', '](u)', '](u "t")', '][', '![',
+TOK = ['<http://a.b/', '<https://x/', '<a@b.c', '<mailto:', '>', '>', '*', '**', '_', '`', '``', '\\', '\\\\', '\\`', '`\\', '\\*', '\\[', '\\]', '\\(', '\\)', '!', '[', ']', '(', ')', '[a]', '[r1]', '[x][r1]', '![i][r1]', '](', '](u)', '](u "t")', '][', '![',
        '"', "'", ' "', '" ', ':', '  \n', '# ', '> ', '- ', '1. ', '    ', '---', '===', '{', '}', '|', '~', '^', '.', '+', '-', '=']
 EXTTOK = G.EXTTOK + ATTRL + ['[^1]', '[^2]', '[^1]: ', '{:', ' }', '{#', '[[', ']]', 'ABBR', '*[ABBR]: A\n', '!!! note "', '"\n    ', '| ', ' |', '|-|-|\n', '\n: ', '[TOC]\n']
 
